@@ -36,8 +36,10 @@ func v9producer(xs *[v9MaxN]int) <-chan int {
 	in := make(chan int, vrt.Param("cap", 0))
 	vrt.Go("producer", func() {
 		for i := 0; i < v9n(); i++ {
+			vrt.Pace("producer")
 			in <- xs[i]
 		}
+		vrt.Pace("producer")
 		close(in)
 	})
 	return in
@@ -48,7 +50,10 @@ func v9producer(xs *[v9MaxN]int) <-chan int {
 func v9ctx() context.Context {
 	ctx, cancel := context.WithCancel(context.Background())
 	if vrt.Param("cancel", 0) == 1 {
-		vrt.Go("cancel", func() { cancel() })
+		vrt.Go("cancel", func() {
+			vrt.Pace("cancel")
+			cancel()
+		})
 	}
 	return ctx
 }
@@ -126,25 +131,35 @@ func v9yes() (o [v9MaxN]bool) {
 // v9consume registers a consumer of an int channel: eager (take<0: until the
 // channel is closed), absent (take==0), or stopping for good after take values.
 func v9consume(name, label string, out <-chan int, img *[v9MaxN]int, ok *[v9MaxN]bool, seen *[v9MaxN]bool) {
+	v9consumeWith(name, label, out, func(v int) { v9mark(label, img, ok, seen, v) })
+}
+
+func v9consumeWith(name, label string, out <-chan int, mark func(int)) {
 	if v9take() == 0 {
 		return
 	}
 	if v9take() < 0 {
 		vrt.Go(name, func() {
-			for v := range out {
-				v9mark(label, img, ok, seen, v)
+			for {
+				vrt.Pace(name)
+				v, more := <-out
+				if !more {
+					vrt.Cover(label + ".drained")
+					return
+				}
+				mark(v)
 			}
-			vrt.Cover(label + ".drained")
 		})
 		return
 	}
 	vrt.Go(name, func() {
 		for k := 0; k < v9take(); k++ {
+			vrt.Pace(name)
 			v, more := <-out
 			if !more {
-				break
+				return
 			}
-			v9mark(label, img, ok, seen, v)
+			mark(v)
 		}
 	})
 }
@@ -157,18 +172,24 @@ func v9consumeErr(label string, exx <-chan error, xs *[v9MaxN]int, bad *[v9MaxN]
 	}
 	if v9take() < 0 {
 		vrt.Go("errors", func() {
-			for e := range exx {
+			for {
+				vrt.Pace("errors")
+				e, more := <-exx
+				if !more {
+					vrt.Cover(label + ".drained")
+					return
+				}
 				v9mark(label, xs, bad, eseen, e.(v9err).x)
 			}
-			vrt.Cover(label + ".drained")
 		})
 		return
 	}
 	vrt.Go("errors", func() {
 		for k := 0; k < v9take(); k++ {
+			vrt.Pace("errors")
 			e, more := <-exx
 			if !more {
-				break
+				return
 			}
 			v9mark(label, xs, bad, eseen, e.(v9err).x)
 		}
